@@ -137,6 +137,54 @@ def choose(rng, regs, kind, fresh):
         add("to_dense", {}, outs=[out], w=0.5)
     if x.blocks and rng.random() < 0.3:
         add("fill_missing_blocks", {}, outs=[r], w=1.0)
+    # --- further entry points of the same operations and the remaining public operations ---
+    if not ip:
+        add("T", {}, outs=[out], w=0.7)
+        add("H", {}, outs=[out], w=0.7)
+        if n >= 1:
+            # einsum: a permutation; or one traced pair of conjugate legs followed by a permutation of the rest
+            letters = "abcdefgh"[:n]
+            pairs = [(i, j) for i in range(n) for j in range(i + 1, n)
+                     if x.indices[i].dual != x.indices[j].dual and dict(x.indices[i].chargemap) == dict(x.indices[j].chargemap)]
+            if pairs and rng.random() < 0.6:
+                i, j = rng.choice(pairs)
+                lhs = list(letters)
+                lhs[j] = lhs[i]
+                kept = [c for k, c in enumerate(letters) if k not in (i, j)]
+                rng.shuffle(kept)
+                eq = "".join(lhs) + "->" + "".join(kept)
+            else:
+                rhs = list(letters)
+                rng.shuffle(rhs)
+                eq = letters + "->" + "".join(rhs)
+            codes = {}
+            l, rr = eq.split("->")
+            lc = [ord(c) - 96 for c in l]
+            rc = [ord(c) - 96 for c in rr]
+            add("einsum", {"eq": eq, "lhs": lc, "rhs": rc, "preserve_array": True}, outs=[out], entry=ent3, w=1.2)
+        if n == 2 and x.indices[0].dual != x.indices[1].dual and dict(x.indices[0].chargemap) == dict(x.indices[1].chargemap):
+            add("trace", {}, outs=[out], entry=ent3, w=0.7)
+        if x.blocks:
+            add("mul", {}, ins=[r, r], outs=[out], w=0.5)
+            add("norm_sq", {}, outs=[out], entry=ent3, w=0.4)
+            add("sum", {}, outs=[out], entry=ent3, w=0.3)
+        # a second live array to contract with: any register sharing a conjugate pair of legs with x
+        others = []
+        for r2 in names:
+            y = regs[r2]
+            if r2 == r or type(y) is not type(x) or _size(y) * _size(x) > 4000:
+                continue
+            cp = [(i, j) for i in range(n) for j in range(y.ndim)
+                  if x.indices[i].dual != y.indices[j].dual and dict(x.indices[i].chargemap) == dict(y.indices[j].chargemap)]
+            if cp:
+                others.append((r2, cp))
+        if others:
+            r2, cp = rng.choice(others)
+            i, j = rng.choice(cp)
+            add("tensordot", {"axes": [[i], [j]], "mode": rng.choice(["auto", "fused", "blockwise"]), "preserve_array": True},
+                ins=[r, r2], outs=[out], entry=rng.choice(["symmray", "autoray"]), w=2.5)
+            if n in (1, 2) and regs[r2].ndim in (1, 2) and i == n - 1 and j == 0:
+                add("matmul", {}, ins=[r, r2], outs=[out], w=1.5)
     tot = sum(w for w, _ in cands)
     t = rng.random() * tot
     for w, st in cands:
